@@ -15,8 +15,10 @@ TLog == ndJsonDeserialize(TraceFile)
 VARIABLES l,            \* index of the next line to consume
           noteLines,    \* <<line, finding ids>> for each step that needed a deviant disjunct
           rt,           \* largest begin tick seen in this history (linearised concurrent runs)
-          hinfo         \* the "reset" line that started the current history (driver family, options)
-tvars == <<vars, l, noteLines, rt, hinfo>>
+          hinfo,        \* the "reset" line that started the current history (driver family, options)
+          ever,         \* <<bucket, key, value>> of every put committed so far in this history
+          pend          \* the same for the puts of the transaction in progress
+tvars == <<vars, l, noteLines, rt, hinfo, ever, pend>>
 
 Ev == TLog[l]
 \* a call that panicked is recorded with a "panic" field: no action admits it (C20)
@@ -34,7 +36,7 @@ ObsOf(o) ==
                            <<o.zs[i].nodes[j].k, o.zs[i].nodes[j].s, o.zs[i].nodes[j].v>>]>> :
              i \in {j \in 1..Len(o.zs) : o.zs[j].nodes # <<>>}}]
 
-TraceInit == Init /\ l = 1 /\ noteLines = {} /\ rt = 0 /\ hinfo = [op |-> "reset"] /\ TLCSet(1, 1)
+TraceInit == Init /\ l = 1 /\ noteLines = {} /\ rt = 0 /\ hinfo = [op |-> "reset"] /\ ever = {} /\ pend = {} /\ TLCSet(1, 1)
 
 \* C14, real-time clause: a linearised concurrent history lists the
 \* transactions in lock-acquisition order; that order must extend real-time
@@ -98,17 +100,51 @@ TrMerge ==
 \* judged part of the history.
 F_MergeRace == "F-C17-2"
 MergeRan == "merger" \in DOMAIN hinfo /\ hinfo.merger
+\* what the finding can explain: a superseded value comes back.  Every pair a
+\* read returns must have been committed at some time in this history, in
+\* ascending key order; an entry that is nil, foreign or garbage is not
+\* explained by it.
+OnceCommitted(b, k, v) == <<b, k, v>> \in ever
+\* Known finding F-C17-3: in HintKeyAndRAMIdxMode a reader fetches values from
+\* the data files; Merge removes a file under it (it holds no lock), the
+\* reader re-creates it empty and returns a nil entry in its place.
+F_MergeNil == "F-C17-3"
+NilEntryOK == F_MergeNil \in Dev /\ "mode" \in DOMAIN hinfo /\ hinfo.mode = 1
+IsNilEntry(x) == x.v = "<nil entry>"
+WeakReadOK(a) ==
+  CASE a.op = "get" -> a.err \/ OnceCommitted(a.b, a.k, a.v) \/ (NilEntryOK /\ a.v = "<nil entry>")
+    [] a.op \in {"getall", "range", "pscan", "psscan"} ->
+         a.err \/ LET real == SelectSeq(a.res, LAMBDA x : ~IsNilEntry(x)) IN
+                  /\ (Len(real) = Len(a.res) \/ NilEntryOK)
+                  /\ \A i \in 1..Len(real) : OnceCommitted(a.b, real[i].k, real[i].v)
+                  /\ \A i \in 1..(Len(real) - 1) : LexLess(real[i].k, real[i + 1].k)
+    [] OTHER -> TRUE
+HasNil(a) ==
+  CASE a.op = "get" -> ~a.err /\ a.v = "<nil entry>"
+    [] a.op \in {"getall", "range", "pscan", "psscan"} -> ~a.err /\ \E i \in 1..Len(a.res) : IsNilEntry(a.res[i])
+    [] OTHER -> FALSE
+WeakObsOK(o) == \A i \in 1..Len(o.kv) : OnceCommitted(o.kv[i].b, o.kv[i].k, o.kv[i].v)
 TrMergeRace ==
   /\ MergeRan /\ F_MergeRace \in Dev /\ status # "lost"
-  /\ \/ Is(Reads) /\ ~IsFin /\ tx.st \in {"rw", "ro"} /\ ~ReadOK(Ev, tx.view, Dev)
-     \/ Is({"obs"}) /\ tx.st = "none" /\ ~ObsMatches(ObsOf(Ev.o), mem, Ev.t0, Ev.t1)
-     \/ Is({"shadow", "backup"}) /\ tx.st = "none" /\ (Ev.err \/ ~ObsMatches(ObsOf(Ev.o), Replay(log), Ev.t0, Ev.t1))
-  /\ status' = "lost" /\ notes' = notes \cup {F_MergeRace}
+  /\ \/ Is(Reads) /\ ~IsFin /\ tx.st \in {"rw", "ro"} /\ ~ReadOK(Ev, tx.view, Dev) /\ WeakReadOK(Ev)
+     \/ Is({"obs"}) /\ tx.st = "none" /\ ~ObsMatches(ObsOf(Ev.o), mem, Ev.t0, Ev.t1) /\ WeakObsOK(Ev.o)
+     \/ /\ Is({"shadow", "backup"}) /\ tx.st = "none" /\ ~Ev.err /\ WeakObsOK(Ev.o)
+        /\ ~ObsMatches(ObsOf(Ev.o), Replay(log), Ev.t0, Ev.t1)
+  /\ status' = "lost"
+  /\ notes' = notes \cup {F_MergeRace} \cup (IF Ev.op \in Reads /\ HasNil(Ev) THEN {F_MergeNil} ELSE {})
   /\ UNCHANGED <<mem, log, tx>>
 
+\* after a deviating Merge the history is no longer judged - except that in
+\* the histories of the merge race every read must still return only values
+\* that were once committed, a call must not panic, and Open must succeed
 TrLost ==
   /\ l <= Len(TLog) /\ status = "lost" /\ Ev.op # "reset" /\ l' = l + 1
-  /\ UNCHANGED vars
+  /\ MergeRan => ( /\ "panic" \notin DOMAIN Ev
+                   /\ Ev.op \in Reads => WeakReadOK(Ev)
+                   /\ Ev.op \in {"obs", "shadow", "backup"} => (("err" \in DOMAIN Ev => ~Ev.err) /\ WeakObsOK(Ev.o))
+                   /\ Ev.op = "open" => ~Ev.err )
+  /\ notes' = IF MergeRan /\ Ev.op \in Reads /\ HasNil(Ev) THEN notes \cup {F_MergeNil} ELSE notes
+  /\ UNCHANGED <<status, mem, log, tx>>
 
 \* full observation of the running database, outside any transaction
 TrObs ==
@@ -154,6 +190,10 @@ TraceNext ==
   /\ noteLines' = IF notes' = notes THEN noteLines ELSE noteLines \cup {<<l, notes' \ notes>>}
   /\ RealTimeOK /\ rt' = NextRt
   /\ hinfo' = IF Ev.op = "reset" THEN Ev ELSE hinfo
+  /\ pend' = IF Ev.op \in {"begin", "reset"} THEN {}
+             ELSE IF Ev.op = "put" /\ ~Ev.err /\ ~IsFin THEN pend \cup {<<Ev.b, Ev.k, Ev.v>>} ELSE pend
+  /\ ever' = IF Ev.op = "reset" THEN {}
+             ELSE IF Ev.op = "commit" /\ ~Ev.err /\ ~IsFin THEN ever \cup pend ELSE ever
 
 TraceSpec == TraceInit /\ [][TraceNext]_tvars
 
